@@ -822,13 +822,35 @@ World.engine_direct = _engine_direct
 
 # SLUGS stand-in: the session's SLUGS connector asks `requests.get`; answer from the URL itself
 # (http://slugs/<g1,g2>/users/<user>[/groups]) so that no shared mutable state is involved.
-class _SlugsResponse(object):
-    def __init__(self, status, body):
-        self.status_code = status
-        self._body = body
+def http_response(url, status, body):
+    """A REAL requests.Response (so raise_for_status(), .ok, .text, .json() behave as in production):
+    body is a JSON-able value, or the string 'NONJSON' for a body that is not JSON."""
+    import json as _json
+    import requests
+    r = requests.models.Response()
+    r.status_code = status
+    r.url = url
+    r.reason = {200: 'OK', 204: 'No Content', 401: 'Unauthorized', 404: 'Not Found',
+                500: 'Internal Server Error', 503: 'Service Unavailable'}.get(status, 'Status')
+    r._content = b'<html>not json</html>' if body == 'NONJSON' else _json.dumps(body).encode()
+    r.encoding = 'utf-8'
+    r.headers['Content-Type'] = 'text/html' if body == 'NONJSON' else 'application/json'
+    return r
 
-    def json(self):
-        return self._body
+
+def http_connection_error(url, what='Connection refused'):
+    """The exception the real library raises when the service cannot be reached (its text names the
+    host, port and path - not the credentials - as urllib3's does)."""
+    import requests
+    from urllib.parse import urlsplit
+    u = urlsplit(url)
+    return requests.exceptions.ConnectionError(
+        "HTTPConnectionPool(host=%r, port=%s): Max retries exceeded with url: %s (Caused by "
+        "NewConnectionError('%s'))" % (u.hostname, u.port or 80, u.path, what))
+
+
+def _SlugsResponse(status, body, url='http://slugs/'):
+    return http_response(url, status, body)
 
 
 # A second URL form, http://slugs/D=<name>/users/<user>[/groups], answers from the read-only table
@@ -847,17 +869,17 @@ def _slugs_get(url, timeout=None):
         _, _, tail = url.partition('/users/')
         user = tail[:-len('/groups')] if tail.endswith('/groups') else tail
         if user not in SLUGS_DIRECTORY:
-            return _SlugsResponse(404, {})
+            return _SlugsResponse(404, {}, url)
         if tail.endswith('/groups'):
-            return _SlugsResponse(200, {'groups': list(SLUGS_DIRECTORY[user])})
-        return _SlugsResponse(200, {})
+            return _SlugsResponse(200, {'groups': list(SLUGS_DIRECTORY[user])}, url)
+        return _SlugsResponse(200, {}, url)
     rest = url[len('http://slugs/G='):]
     groups_part, sep, tail = rest.partition('/users/')
     assert sep, url
     if tail.endswith('/groups'):
         groups = [g for g in groups_part.split(',') if g]
-        return _SlugsResponse(200, {'groups': groups})
-    return _SlugsResponse(200, {})
+        return _SlugsResponse(200, {'groups': groups}, url)
+    return _SlugsResponse(200, {}, url)
 
 
 from kmip.services.server.auth import slugs as _slugs_mod  # noqa: E402
